@@ -17,6 +17,7 @@ fn knobs() -> Knobs {
     k.digits = false;
     k.sup = false;
     k.weird_colspan = false;
+    k.pre_inline = true;
     k
 }
 
